@@ -245,6 +245,45 @@ theorem normalize_equal_integrals (g0 : Geo) (hwf : g0.wf) (hf : g0.fresh) (ops 
           funext idx; ring
         rw [this, sumBox_mul_left, hI, div_mul_cancel₀ _ hne]
 
+/-! ### the constructors produce geometries satisfying the guards -/
+
+/-- `Geometry(space_dim, num_voxels, dimensions)` with positive voxel counts is well formed and fresh -/
+theorem plain_wf_fresh (dim : Nat) (nv : List Nat) (dims : List Rat) (h : nv.length = dim) (hp : allPos nv = true) :
+    (Geo.plain dim nv dims).wf ∧ (Geo.plain dim nv dims).fresh := by
+  have ht : nv.take dim = nv := List.take_of_length_le (by omega)
+  refine ⟨⟨?_, ?_, ?_⟩, ?_⟩
+  · simp [Geo.plain, ht, h]
+  · simp [Geo.plain, ht, hp]
+  · intro s f hv; simp [Geo.plain] at hv
+  · simp [Geo.fresh, Geo.plain]
+
+/-- `WeightedGeometry` / `ExtrudedGeometry` / `PorousGeometry` / `ExtrudedPorousGeometry` with a float weight or
+an array weight of the native shape: the constructor succeeds and the object is well formed and fresh -/
+theorem weighted_wf_fresh (w : Weight) (dim : Nat) (nv : List Nat) (dims : List Rat) (h : nv.length = dim)
+    (hp : allPos nv = true) (hw : ∀ s f, w = .array s f → s = nv) :
+    ∃ g, Geo.weighted w dim nv dims = .ok g ∧ g.wf ∧ g.fresh := by
+  have ht : nv.take dim = nv := List.take_of_length_le (by omega)
+  cases w with
+  | scalar x =>
+    refine ⟨_, rfl, ⟨?_, ?_, ?_⟩, ?_⟩
+    · simp [ht, h]
+    · simp [ht, hp]
+    · intro s f hv; simp at hv
+    · simp [Geo.fresh]
+  | array s f =>
+    have hs : s = nv := hw s f rfl
+    have hl : ¬ s.length ≠ dim := by rw [hs, h]; simp
+    have e : Geo.weighted (.array s f) dim nv dims = .ok
+        { dim := dim, numVoxels := nv.take dim,
+          vol := .array s fun i => voxelVolume (nv.take dim) dims * f i,
+          cached := .array s fun i => voxelVolume (nv.take dim) dims * f i } := by
+      simp only [Geo.weighted, hl, if_false]
+    refine ⟨_, e, ⟨?_, ?_, ?_⟩, ?_⟩
+    · simp [ht, h]
+    · simp [ht, hp]
+    · intro s' f' hv; simp at hv; rw [ht, ← hs]; exact hv.1.symm
+    · simp [Geo.fresh]
+
 /-! ### non-vacuity -/
 
 /-- a 2-D geometry with a non-constant array volume -/
